@@ -12,6 +12,8 @@ import sys
 import tempfile
 
 ENV = dict(os.environ, GOFLAGS="-mod=mod", GOPROXY="off", GOSUMDB="off", GOTOOLCHAIN="local")
+# what TLC derives from the specification does not depend on the library: seed checks reuse it
+ENV.setdefault("VERIF_TLC_CACHE", "/tmp/tlc-cache")
 VERIF = os.path.dirname(os.path.dirname(os.path.abspath(__file__)))
 
 
